@@ -39,6 +39,10 @@ fn c18_instruction_results_obey_the_limit() {
         ("calldatacopy with grown offset, constant size", vec![0x60, 0x20, 0x36, 0x80, 0x01, 0x80, 0x01, 0x60, 0x00, 0x37, 0x60, 0x00, 0x51, 0x60, 0x00, 0x55, 0x00]),
         ("codecopy / returndatacopy with grown operands", vec![0x36, 0x80, 0x01, 0x80, 0x01, 0x80, 0x80, 0x60, 0x00, 0x39, 0x36, 0x80, 0x01, 0x80, 0x80, 0x60, 0x20, 0x3e, 0x60, 0x00, 0x51, 0x60, 0x00, 0x55, 0x00]),
         ("folded memory key with a constant sub-expression", vec![0x60, 0x07, 0x60, 0x01, 0x60, 0x02, 0x01, 0x36, 0x01, 0x52, 0x00]),
+        // a word copied back and forth between two slots, and round three slots: the wrappers must not pile up
+        ("ping-pong between slots 1 and 2", { let mut v = vec![0x36, 0x60, 0x01, 0x55]; for _ in 0..60 { v.extend([0x60, 0x01, 0x54, 0x60, 0x02, 0x55, 0x60, 0x02, 0x54, 0x60, 0x01, 0x55]); } v.push(0x00); v }),
+        ("round trip over slots 1, 2, 3 with an increment", { let mut v = vec![0x36, 0x60, 0x01, 0x55]; for _ in 0..40 { for (a, b) in [(1u8, 2u8), (2, 3), (3, 1)] { v.extend([0x60, a, 0x54, 0x60, 0x01, 0x01, 0x60, b, 0x55]); } } v.push(0x00); v }),
+        ("mload / mstore ping-pong between two offsets", { let mut v = vec![0x36, 0x60, 0x00, 0x52]; for _ in 0..60 { v.extend([0x60, 0x00, 0x51, 0x60, 0x20, 0x52, 0x60, 0x20, 0x51, 0x60, 0x00, 0x52]); } v.extend([0x60, 0x00, 0x51, 0x60, 0x00, 0x55, 0x00]); v }),
     ];
     let mut cases = 0;
     for (name, code) in programs {
@@ -52,7 +56,8 @@ fn c18_instruction_results_obey_the_limit() {
                 if v.size() != real { witness("C18", "vs.size_is_node_count", format!("{name} code={code:02x?} limit={limit}"), format!("size()={} for {v}", v.size()), format!("{real}")); }
                 // known finding: Storage::load / stores_as_values / Memory::load_slice wrap values with RSV::new(.., None)
                 let storage_wrapper = matches!(v.data(), RSVD::SLoad { .. } | RSVD::StorageWrite { .. } | RSVD::UnwrittenStorageValue { .. });
-                let ob = if storage_wrapper { "vs.instruction_result_within_limit.storage_wrapper_unlimited" } else { "vs.instruction_result_within_limit" };
+                // ... a write wrapper around a key and a load wrapper around a key and a value that each obey the limit: at most 2 + 3 * limit nodes; anything bigger is not that finding
+                let ob = if storage_wrapper && real <= 3 * limit.max(1) + 2 { "vs.instruction_result_within_limit.storage_wrapper_unlimited" } else { "vs.instruction_result_within_limit" };
                 if real > limit.max(1) { witness("C18", ob, format!("{name} code={code:02x?} limit={limit}"), format!("{real} nodes: {v}"), format!("<= {limit}")); }
             }
             cases += 1;
@@ -121,4 +126,40 @@ fn c18_culled_values_are_fresh() {
         }
     }
     println!("CASES c18_fresh {cases}");
+}
+
+/// "the size a value reports always equals the number of nodes it actually contains" at EVERY stage: the values the VM hands
+/// over, the lifted values, and the values registered with the type checker (rebuilt by another constructor)
+#[test]
+fn c18_reported_size_is_node_count_at_every_stage() {
+    use storage_layout_extractor::{disassembly::InstructionStream, tc, vm::{Config, VM}, watchdog::LazyWatchdog};
+    fn count_tc(v: &storage_layout_extractor::vm::value::TCBoxedVal) -> usize { 1 + v.data().children().iter().map(|c| count_tc(c)).sum::<usize>() }
+    let programs: Vec<(&str, Vec<u8>)> = vec![
+        ("packed write", vec![0x60, 0xff, 0x60, 0x00, 0x35, 0x16, 0x60, 0x08, 0x1b, 0x61, 0xff, 0x00, 0x19, 0x60, 0x01, 0x54, 0x16, 0x17, 0x60, 0x01, 0x55, 0x00]),
+        ("mapping store of a sum", vec![0x60, 0x01, 0x36, 0x01, 0x60, 0x02, 0x02, 0x33, 0x5f, 0x52, 0x60, 0x01, 0x60, 0x20, 0x52, 0x60, 0x40, 0x5f, 0x20, 0x55, 0x00]),
+        ("repeated add then store", vec![0x36, 0x80, 0x01, 0x80, 0x01, 0x80, 0x01, 0x60, 0x00, 0x55, 0x00]),
+        ("sha3 of memory stored", vec![0x36, 0x60, 0x00, 0x52, 0x60, 0x20, 0x60, 0x00, 0x20, 0x80, 0x01, 0x60, 0x00, 0x55, 0x00]),
+    ];
+    let mut cases = 0;
+    for (name, code) in programs {
+        for limit in [5usize, 10, 250] {
+            let is = InstructionStream::try_from(code.as_slice()).unwrap();
+            let mut vm = VM::new(is, Config::default().with_value_size_limit(limit).with_permissive_errors(true), LazyWatchdog.in_rc()).unwrap();
+            let _ = vm.execute();
+            let res = vm.consume();
+            let mut checker = tc::TypeChecker::new(tc::Config::default(), LazyWatchdog.in_rc());
+            let Ok(lifted) = checker.lift(res) else { continue };
+            for v in &lifted {
+                let real = count(v);
+                if v.size() != real { witness("C18", "vs.size_is_node_count", format!("{name} code={code:02x?} limit={limit} (lifted value)"), format!("size()={} for {v}", v.size()), format!("{real}")); }
+            }
+            if checker.assign_vars(lifted).is_err() { continue; }
+            for v in checker.values_under_analysis_cloned() {
+                let real = count_tc(&v);
+                if v.size() != real { witness("C18", "vs.size_is_node_count", format!("{name} code={code:02x?} limit={limit} (value registered with the type checker)"), format!("size()={} for {v}", v.size()), format!("{real}")); }
+            }
+            cases += 1;
+        }
+    }
+    println!("CASES c18_stages {cases}");
 }
